@@ -108,13 +108,25 @@ def singular_case(rng, cid, prec, n, sub):
                     if key[1] == c:
                         del ent[key]
                 ent[(0, c)] = gen.val(rng); ent[(1, c)] = gen.val(rng)
+    # badly scaled AND singular without an empty row or column: the expert driver equilibrates (equed != NOEQUIL, B is scaled) before
+    # it learns that the matrix is singular; X must still come back untouched.  Powers of two keep exact cancellations exact.
+    scaled = sub in ("cancel", "structdef", "relaxdef") and rng.random() < 0.6
+    if scaled:
+        rs = [2.0 ** rng.randint(-12, 12) for _ in range(n)]; cs = [2.0 ** rng.randint(-12, 12) for _ in range(n)]
+        ent = {(i, j): v * rs[i] * cs[j] for (i, j), v in ent.items()}
     A = gen.from_entries(n, ent, "singular-" + sub)
     vals = []
     for v in A["vals"]:
         vals += [rnd(v), rnd(gen.val(rng)) if v != 0 else 0.0] if ncomp == 2 else [rnd(v)]
+    if scaled and ncomp == 2:
+        # complex: the imaginary parts must follow the same scaling or the cancellation is lost
+        vals = []
+        for p_ in range(len(A["vals"])):
+            v = A["vals"][p_]
+            vals += [rnd(v), 0.0]
     nrhs = rng.choice([1, 2])
     rhs = [rnd(gen.val(rng)) for _ in range(n * nrhs * ncomp)]
-    driver = rng.choice(["gssv", "gssvx"])
+    driver = "gssvx" if scaled else rng.choice(["gssv", "gssvx"])
     if sub == "multizero":
         return dict(id=cid, prec=prec, driver=driver, stype="NC", m=n, n=n, colptr=A["colptr"], rowind=A["rowind"], vals=vals,
                     nrhs=nrhs, rhs=rhs, nprocs=rng.choice([2, 3, 4, 8]), colperm=rng.choice([0, 1, 2, 3]),
@@ -125,7 +137,7 @@ def singular_case(rng, cid, prec, n, sub):
                 nrhs=nrhs, rhs=rhs, nprocs=rng.choice([1, 2, 4, 8]), colperm=rng.choice([0, 1, 2, 3]),
                 ienv=[rng.choice([1, 2, 4, 8]), rng.choice([1, 2, 4, 6]), rng.choice([8, 200]), 200, 100, -50, -50, -30],
                 perturb=[rng.randint(1, 10 ** 6), rng.choice([0.0, 0.2]), rng.choice([0, 100])],
-                fact=rng.choice([0, 1]), trans=0, dumplu=1, timeout=60, kind=sub, trace=2)
+                fact=1 if scaled else rng.choice([0, 1]), trans=0, dumplu=1, timeout=60, kind=sub, trace=2)
 
 
 def thinsnode_case(rng, cid, prec):
